@@ -663,4 +663,123 @@ theorem C16_gen_offset_tables :
     Generated.C16.escapeOffsets = some [0, 0, 0, 0] ∧
     Generated.C16.unescapeOffsets = some [0, 0, 0, 0, 0, 0] := by decide
 
+/-! ### The surrounding loop terminates (round F, review C16-2)
+
+The chunk-independence theorems speak about states in which everything has been consumed.
+`C16_loop_consumes` shows that a loop following the x/text protocol reaches such a state
+within `2·|input|` rounds whenever the step makes progress (`Progress`: with `need` bytes of
+room and a non-empty source a call consumes something unless more input can still come);
+`C16_esc_makes_progress` / `C16_unesc_makes_progress` show that the modelled steps do. -/
+
+/-- with `need` bytes of room a call on a non-empty source consumes something, unless it is
+not at the end of the input (then the caller reads more) -/
+def Progress (step : Step) (need : Nat) : Prop :=
+  ∀ cap atEOF src, need ≤ cap → src ≠ [] → 0 < (step cap atEOF src).nSrc ∨ atEOF = false
+
+theorem C16_esc_makes_progress : Progress (fun cap _ src => escStep cap src) 3 :=
+  fun cap _ src hc hs => .inl (C16_esc_progress cap src hc hs)
+
+theorem C16_unesc_makes_progress : Progress unescStep 1 := by
+  intro cap atEOF src hc hs
+  rcases C16_unesc_progress cap atEOF src hc hs with h | ⟨_, h⟩
+  · exact .inl h
+  · exact .inr h
+
+theorem todo_feed (step : Step) (d : Drv) (k : Nat) (hk : 1 ≤ k) (hp : d.pending ≠ []) :
+    (d.act step (.feed k)).todo < d.todo := by
+  have hl : 0 < d.pending.length := List.length_pos_iff.mpr hp
+  simp only [Drv.act, Drv.todo, List.length_append, List.length_take, List.length_drop]
+  omega
+
+theorem todo_call (step : Step) (d : Drv) (cap : Nat) :
+    (d.act step (.call cap)).todo ≤ d.todo ∧
+    (0 < (step cap d.pending.isEmpty d.buf).nSrc → d.buf ≠ [] → (d.act step (.call cap)).todo < d.todo) ∧
+    (d.act step (.call cap)).pending = d.pending := by
+  have hl : d.buf ≠ [] → 0 < d.buf.length := fun h => List.length_pos_iff.mpr h
+  simp only [Drv.act, Drv.todo, List.length_drop]
+  refine ⟨by omega, fun h hb => ?_, trivial⟩
+  have := hl hb
+  omega
+
+/-- **the loop reaches the consumed state**: for every step that makes progress, every
+destination size with room for one unit, every read size ≥ 1, within `todo` rounds -/
+theorem C16_loop_consumes (step : Step) (need : Nat) (hp : Progress step need) (cap chunk : Nat)
+    (hc : need ≤ cap) (hk : 1 ≤ chunk) :
+    ∀ (fuel : Nat) (d : Drv), d.todo ≤ fuel →
+      (runLoop step cap chunk fuel d).buf = [] ∧ (runLoop step cap chunk fuel d).pending = [] := by
+  intro fuel
+  induction fuel with
+  | zero =>
+    intro d h
+    have hb : d.buf.length = 0 := by simp only [Drv.todo] at h; omega
+    have hq : d.pending.length = 0 := by simp only [Drv.todo] at h; omega
+    exact ⟨List.length_eq_zero_iff.mp hb, List.length_eq_zero_iff.mp hq⟩
+  | succ fuel ih =>
+    intro d h
+    unfold runLoop
+    by_cases h0 : d.buf = [] ∧ d.pending = []
+    · rw [if_pos h0]; exact h0
+    rw [if_neg h0]
+    by_cases hb : d.buf = []
+    · rw [if_pos hb]
+      have hpe : d.pending ≠ [] := fun e => h0 ⟨hb, e⟩
+      exact ih _ (by have := todo_feed step d chunk hk hpe; omega)
+    rw [if_neg hb]
+    obtain ⟨hle, hlt, hpend⟩ := todo_call step d cap
+    by_cases hn : (step cap d.pending.isEmpty d.buf).nSrc = 0
+    · rw [if_pos hn]
+      -- no progress: by `Progress` the input is not exhausted, so reading more helps
+      have hpe : d.pending ≠ [] := by
+        rcases hp cap d.pending.isEmpty d.buf hc hb with h1 | h1
+        · omega
+        · intro e; rw [e] at h1; simp at h1
+      have hpe' : (d.act step (.call cap)).pending ≠ [] := by rw [hpend]; exact hpe
+      exact ih _ (by have := todo_feed step _ chunk hk hpe'; omega)
+    · rw [if_neg hn]
+      exact ih _ (by have := hlt (by omega) hb; omega)
+
+/-- the loop is a `drive`: it performs some schedule of feeds and calls -/
+theorem C16_loop_is_drive (step : Step) (cap chunk : Nat) :
+    ∀ (fuel : Nat) (d : Drv), ∃ sched : List Act, runLoop step cap chunk fuel d = sched.foldl (Drv.act step) d := by
+  intro fuel
+  induction fuel with
+  | zero => intro d; exact ⟨[], rfl⟩
+  | succ fuel ih =>
+    intro d
+    unfold runLoop
+    split
+    · exact ⟨[], rfl⟩
+    · split
+      · obtain ⟨sc, e⟩ := ih (d.act step (.feed chunk)); exact ⟨.feed chunk :: sc, by rw [e]; rfl⟩
+      · split
+        · obtain ⟨sc, e⟩ := ih ((d.act step (.call cap)).act step (.feed chunk))
+          exact ⟨.call cap :: .feed chunk :: sc, by rw [e]; rfl⟩
+        · obtain ⟨sc, e⟩ := ih (d.act step (.call cap)); exact ⟨.call cap :: sc, by rw [e]; rfl⟩
+
+/-- **`Escape` through any loop of the protocol terminates with the right result**: every
+read size ≥ 1, every destination with room for one escape (3 bytes), within `2·|s|` rounds -/
+theorem C16_escape_loop (s : Bytes) (cap chunk : Nat) (hc : 3 ≤ cap) (hk : 1 ≤ chunk) :
+    runLoop (fun cap _ src => escStep cap src) cap chunk (2 * s.length) ⟨s, [], []⟩ = ⟨[], [], escape s⟩ := by
+  obtain ⟨hb, hq⟩ := C16_loop_consumes _ 3 C16_esc_makes_progress cap chunk hc hk (2 * s.length) ⟨s, [], []⟩ (by simp [Drv.todo])
+  obtain ⟨sc, e⟩ := C16_loop_is_drive (fun cap _ src => escStep cap src) cap chunk (2 * s.length) ⟨s, [], []⟩
+  have ho := C16_escape_chunked s sc (by unfold drive; rw [← e]; exact hb) (by unfold drive; rw [← e]; exact hq)
+  unfold drive at ho; rw [← e] at ho
+  cases hr : runLoop (fun cap _ src => escStep cap src) cap chunk (2 * s.length) ⟨s, [], []⟩ with
+  | mk p b o => rw [hr] at hb hq ho; simp only at hb hq ho; rw [hb, hq, ho]
+
+/-- … and `Unescape` (room for one byte) -/
+theorem C16_unescape_loop (s : Bytes) (cap chunk : Nat) (hc : 1 ≤ cap) (hk : 1 ≤ chunk) :
+    runLoop unescStep cap chunk (2 * s.length) ⟨s, [], []⟩ = ⟨[], [], unescape s⟩ := by
+  obtain ⟨hb, hq⟩ := C16_loop_consumes _ 1 C16_unesc_makes_progress cap chunk hc hk (2 * s.length) ⟨s, [], []⟩ (by simp [Drv.todo])
+  obtain ⟨sc, e⟩ := C16_loop_is_drive unescStep cap chunk (2 * s.length) ⟨s, [], []⟩
+  have ho := C16_unescape_chunked s sc (by unfold drive; rw [← e]; exact hb) (by unfold drive; rw [← e]; exact hq)
+  unfold drive at ho; rw [← e] at ho
+  cases hr : runLoop unescStep cap chunk (2 * s.length) ⟨s, [], []⟩ with
+  | mk p b o => rw [hr] at hb hq ho; simp only at hb hq ho; rw [hb, hq, ho]
+
+/-- the room is needed: with a destination of 2 bytes the escape loop never gets past an
+escapable byte (it spins until the fuel is gone) -/
+example : (runLoop (fun cap _ src => escStep cap src) 2 1 100 ⟨[0x20], [], []⟩).buf = [0x20] := by
+  decide +kernel
+
 end XmppModel.Props.C16
